@@ -45,6 +45,28 @@ NuPos == {Z(0), R(1, 4), R(1, 3), R(-1, 2), R(3, 4), R(5, 2)}
 Nufft1(N, dst, us) == {<<i, p - 1, Frac(RMul(RMul(Z(i - (N \div 2)), dst), us[p])), 0>> : i \in 0..(N - 1), p \in 1..Len(us)}
 Nufft2(N1, N2, d1, d2, us) == {<<i * N2 + j, p - 1, Frac(RAdd(RMul(RMul(Z(i - (N1 \div 2)), d1), us[p][1]), RMul(RMul(Z(j - (N2 \div 2)), d2), us[p][2]))), 0>> :
                                  i \in 0..(N1 - 1), j \in 0..(N2 - 1), p \in 1..Len(us)}
+\* ---- C02: further linear operators that are index maps -------------------------------------------------------------------------
+\* contraction of an array of shape (2, 3) [grid with volume 1/2 per pixel, grid with volume 2 per pixel] over a set of its axes,
+\* weighted with volume^power; the output keeps the remaining axes (C order)
+Vol2 == <<R(1, 2), Z(2)>>
+Contract(S, pw) == {<<IF S = {1} THEN j ELSE IF S = {2} THEN i ELSE 0, i * 3 + j,
+                      Z(1), 0>> : i \in 0..1, j \in 0..2}
+ContractW(S, pw) == {<<e[1], e[2], IF pw = 0 THEN Z(1) ELSE RMul(IF 1 \in S THEN Vol2[1] ELSE Z(1), IF 2 \in S THEN Vol2[2] ELSE Z(1)), 0>> : e \in Contract(S, pw)}
+\* transposition of the sub-domains of a field of shape (2, 3, 2): output axis a is input axis perm[a]
+Perms3 == {<<1, 2, 3>>, <<1, 3, 2>>, <<2, 1, 3>>, <<2, 3, 1>>, <<3, 1, 2>>, <<3, 2, 1>>}
+Sh3 == <<2, 3, 2>>
+FlatOf(ix, sh) == (ix[1] * sh[2] + ix[2]) * sh[3] + ix[3]
+Transpose(pm) == LET osh == [a \in 1..3 |-> Sh3[pm[a]]] IN
+                 {<<FlatOf([a \in 1..3 |-> ix[pm[a]]], osh), FlatOf(ix, Sh3), Z(1), 0>> : ix \in {<<i, j, k>> : i \in 0..1, j \in 0..2, k \in 0..1}}
+\* ValueInserter into a (2, 3) target at (i, j); DomainTupleFieldInserter: a field on 2 pixels written at position k of a new 3-pixel space (before / after)
+ValIns(i, j) == {<<i * 3 + j, 0, Z(1), 0>>}
+DtIns(space, k) == IF space = 1 THEN {<<k * 2 + a, a, Z(1), 0>> : a \in 0..1}           \* target (3, 2)
+                   ELSE {<<a * 3 + k, a, Z(1), 0>> : a \in 0..1}                        \* target (2, 3)
+\* SliceOperator on one axis of n pixels to m <= n pixels, from the start or centred: start = floor((n - m) / 2)
+SliceAx(n, m, center) == LET st == IF center THEN (n - m) \div 2 ELSE 0 IN {<<o, st + o, Z(1), 0>> : o \in 0..(m - 1)}
+\* Python slice(start, stop, step) with positive step on an axis of n pixels: start, start + step, ... < stop  (SplitOperator)
+PySlice(n, start, stop, step) == LET sel == {i \in 0..(n - 1) : i >= start /\ i < stop /\ (i - start) % step = 0} IN
+                                 {<<Cardinality({j \in sel : j < i}), i, Z(1), 0>> : i \in sel}
 \* ---- instances ---------------------------------------------------------------------------------------------------
 Dists == {Z(1), R(1, 2)}
 Instances ==
@@ -61,10 +83,24 @@ Instances ==
                               N \in {2, 4, 6}, d \in Dists, a \in NuPos, b \in NuPos}
     [] Kind = "nufft2" -> {[op |-> "nufft2", shape |-> <<N1, N2>>, dist |-> <<d1, d2>>, pts |-> <<<<a, b>>>>, nout |-> N1 * N2, nin |-> 1, ent |-> Nufft2(N1, N2, d1, d2, <<<<a, b>>>>)] :
                               N1 \in {2, 4}, N2 \in {2}, d1 \in Dists, d2 \in {R(1, 2)}, a \in NuPos, b \in NuPos}
+    [] OTHER -> {}
+Instances2 ==
+  CASE Kind = "contract" -> {[op |-> "contract", shape |-> <<IF 1 \in S THEN 1 ELSE 0, IF 2 \in S THEN 1 ELSE 0, pw>>, dist |-> <<Z(1)>>, pts |-> <<>>,
+                               nout |-> IF S = {1} THEN 3 ELSE IF S = {2} THEN 2 ELSE 1, nin |-> 6, ent |-> ContractW(S, pw)] : S \in {{1}, {2}, {1, 2}}, pw \in {0, 1}}
+    [] Kind = "transpose" -> {[op |-> "transpose", shape |-> pm, dist |-> <<Z(1)>>, pts |-> <<>>, nout |-> 12, nin |-> 12, ent |-> Transpose(pm)] : pm \in Perms3}
+    [] Kind = "valins" -> {[op |-> "valins", shape |-> <<i, j>>, dist |-> <<Z(1)>>, pts |-> <<>>, nout |-> 6, nin |-> 1, ent |-> ValIns(i, j)] : i \in 0..1, j \in 0..2}
+    [] Kind = "dtins" -> {[op |-> "dtins", shape |-> <<sp, k>>, dist |-> <<Z(1)>>, pts |-> <<>>, nout |-> 6, nin |-> 2, ent |-> DtIns(sp, k)] : sp \in {1, 2}, k \in 0..2}
+    [] Kind = "slice" -> {[op |-> "slice", shape |-> <<n, m, IF c THEN 1 ELSE 0>>, dist |-> <<Z(1)>>, pts |-> <<>>, nout |-> m, nin |-> n, ent |-> SliceAx(n, m, c)] :
+                            n \in 2..6, m \in 1..6, c \in BOOLEAN}
+    [] Kind = "pyslice" -> {[op |-> "pyslice", shape |-> <<n, a, b, st>>, dist |-> <<Z(1)>>, pts |-> <<>>, nout |-> Cardinality(PySlice(n, a, b, st)), nin |-> n, ent |-> PySlice(n, a, b, st)] :
+                            n \in 3..6, a \in 0..2, b \in 2..6, st \in 1..3}
+    [] OTHER -> {}
 Valid(i) == CASE i.op = "regrid" -> i.shape[2] <= i.shape[1]
               [] i.op = "zeropad" -> i.shape[2] >= i.shape[1]
+              [] i.op = "slice" -> i.shape[2] <= i.shape[1]
+              [] i.op = "pyslice" -> i.shape[3] <= i.shape[1] /\ i.shape[2] < i.shape[3]
               [] OTHER -> TRUE
-Init == inst \in {i \in Instances : Valid(i)}
+Init == inst \in {i \in Instances \cup Instances2 : Valid(i)}
 Next == UNCHANGED inst
 Spec == Init /\ [][Next]_vars
 \* ---- laws ---------------------------------------------------------------------------------------------------------
@@ -74,10 +110,15 @@ Row(o) == {e \in inst.ent : e[1] = o}
 \* (the 4th component of an entry tells the corners of a cell apart: two corners may wrap onto the same pixel and are then added up)
 RowSumsOne == inst.op \in {"interp1", "interp2", "regrid"} => \A o \in 0..(inst.nout - 1) : SumW(Row(o)) = Z(1)
 InRange == \A e \in inst.ent : e[1] \in 0..(inst.nout - 1) /\ e[2] \in 0..(inst.nin - 1)
-PartialPermutation == inst.op \in {"mask", "zeropad"} =>
+PartialPermutation == inst.op \in {"mask", "zeropad", "transpose", "valins", "dtins", "slice", "pyslice"} =>
                         /\ \A e \in inst.ent : e[3] = Z(1)
                         /\ \A a, b \in inst.ent : a[1] = b[1] => a = b                      \* every output entry has one source
-                        /\ (inst.op = "mask" => \A a, b \in inst.ent : a[2] = b[2] => a = b)
+                        /\ (inst.op \in {"mask", "transpose", "slice", "pyslice", "valins", "dtins"} => \A a, b \in inst.ent : a[2] = b[2] => a = b)
+\* a transposition is a permutation: every input and every output index occurs exactly once
+IsPermutation == inst.op = "transpose" => {e[1] : e \in inst.ent} = 0..(inst.nout - 1) /\ {e[2] : e \in inst.ent} = 0..(inst.nin - 1)
+\* a python slice selects ceil((stop - start) / step) pixels (clipped to the axis)
+SliceLength == inst.op = "pyslice" => LET n == inst.shape[1]  a == inst.shape[2]  b == inst.shape[3]  st == inst.shape[4] IN
+                                      inst.nout = ((b - a) + st - 1) \div st
 MaskOrder == inst.op = "mask" => \A a, b \in inst.ent : a[2] < b[2] => a[1] < b[1]
 NonNegWeights == inst.op \in {"interp1", "interp2"} => \A e \in inst.ent : ~RLt(e[3], Z(0))
 TurnsInRange == inst.op \in {"nufft1", "nufft2"} => \A e \in inst.ent : ~RLt(e[3], Z(0)) /\ RLt(e[3], Z(1))
